@@ -23,6 +23,10 @@ theorem nodup_of_noDup : ∀ {l : List Name}, noDup l = true → l.Nodup
     have : xs.contains x = true := List.contains_iff_mem.mpr hm
     rw [this] at h; cases h.1
 
+theorem nodupB_eq_noDup : ∀ (l : List Name), Valid.nodupB l = noDup l
+  | [] => rfl
+  | x :: xs => by simp only [Valid.nodupB, noDup, nodupB_eq_noDup xs]
+
 /-- `IsValidImplementationFieldType` relates the innermost named types by `IsSubType` -/
 theorem subTypeSpec_of_validImpl (S : Schema) : ∀ (a b : GType), validImplFieldType S a b = true →
     isSubTypeSpec S a.unwrapped b.unwrapped = true := by
@@ -166,6 +170,27 @@ theorem ifaceOk_of_accepted : ifaceOkB ⟨T⟩ = true := by
   · have : (od.kind != TypeKind.object) = true := by
       cases hkk : od.kind <;> first | rfl | exact absurd hkk hk
     simp [this]
+
+/-- **the schema checker establishes `schemaOkB`** for a resolved document with unique type names in which no type
+    declares a field named `__typename` (the checker reports `__`-names on the fields of object and interface types) -/
+theorem schemaOk_of_accepted (hnr : Valid.noReservedFieldsB ⟨T⟩ = true) : schemaOkB ⟨T⟩ = true := by
+  unfold schemaOkB
+  simp only [Bool.and_eq_true, List.all_eq_true]
+  refine ⟨⟨?_, hnr⟩, ?_⟩
+  · rw [nodupB_eq_noDup]; exact hu
+  · intro t ht
+    by_cases hk : t.kind = .union
+    · have hb : (TypeKind.union != TypeKind.union) = false := by decide
+      simp only [hk, hb, Bool.false_or, List.all_eq_true]
+      intro m hm
+      have hmm : m ∈ membersOfT t := by simp [membersOfT, hk, hm]
+      obtain ⟨d, hl, hdk⟩ := (membersOfT_facts h ht).1 m hmm
+      rw [lastTypeDef_eq_typeDef hu] at hl
+      rw [kindOf_of_typeDef hl, hdk]
+      decide
+    · have : (t.kind != TypeKind.union) = true := by
+        cases hkk : t.kind <;> first | rfl | exact absurd hkk hk
+      simp [this]
 
 end
 end NitroVerif.Stages
